@@ -10,7 +10,8 @@ RULE = ("case = Brownian configuration (shape, Levy mode, cache_size in {0,1,2,5
         "dyadic mode, wrapper, dtype, entropy) + generated query history (queries, forward/backward sweeps, zooms, "
         "rejected-trial triples, re-queries); every query is compared bit-for-bit (W, U, A) with the tensors returned "
         "the first time, and at the end every distinct query is re-issued in a drawn order, then once more with a drawn subset "
-        "of the return flags (W alone / (W,U) / (W,A)), which must give the same tensors. Second case kind: "
+        "of the return flags (W alone / (W,U) / (W,A)), which must give the same tensors; and every tensor object handed out must "
+        "still hold the values it held when it was returned. Second case kind: "
         "sdeint_adjoint through a recording proxy - every backward query that coincides with a forward interval must "
         "return the forward tensors. Non-trivial = some repeat is separated from its first occurrence by more than "
         "cache_size other distinct queries or by a dependency-tree rebuild (history kind), or the backward pass "
@@ -37,9 +38,28 @@ def _history_case(draw, tier):
             "twin_at": draw(st.sampled_from([None, None, None, 1, 1, 2, 5, 20]))}
 
 
+@st.composite
+def _points_case(draw, tier):
+    """BrownianPath / BrownianTree used the way their docs show them: values at single times, bm(t), evaluated in a drawn
+    order with returns to earlier times (interleaved with a few increments)."""
+    cfg = draw(history.configs(wrappers=("path", "path", "tree")))
+    cfg["shape"] = draw(st.sampled_from([[64], [16, 3], [7, 5], [200], [3], [2, 2]]))
+    n = cfg["grid"]
+    pts = draw(st.lists(st.integers(0, n), min_size=3, max_size=8, unique=True))
+    ops = [["pt", k] for k in pts]
+    for _ in range(draw(st.integers(3, 10))):
+        if draw(st.sampled_from([True, True, True, False])):
+            ops.append(["pt", draw(st.sampled_from(pts))])
+        else:
+            a_ = draw(st.integers(0, n - 1))
+            ops.append(["q", a_, draw(st.integers(a_ + 1, n))])
+    return {"kind": "history", "cfg": cfg, "ops": ops, "perm": draw(st.integers(0, 2 ** 31 - 1)), "twin_at": None}
+
+
 def strategy(tier):
     from . import c05_adjoint
-    return st.one_of(_history_case(tier), _history_case(tier), _history_case(tier), c05_adjoint.cases(tier))
+    return st.one_of(_history_case(tier), _history_case(tier), _history_case(tier), _points_case(tier),
+                     c05_adjoint.cases(tier))
 
 
 def enumerate_cases(tier):
@@ -161,6 +181,13 @@ def run_case(case):
             far_repeat = True
         if rebuild_marks and i0 < rebuild_marks[-1]:
             rebuild_repeat = True
+    checks += 1
+    changed = history.modified_after_return(meta)
+    if changed is not None:
+        return Result(nontrivial=True, checks=checks, fail=Fail(
+            "returned_tensor_modified_later",
+            f"a tensor returned for query {changed} was changed in place by later queries: the caller who kept the first "
+            f"answer no longer holds the tensors the same query returns", {"levy": cfg["levy"], "wrapper": cfg["wrapper"]}))
     labels = [f"wrapper={cfg['wrapper']}", f"levy={cfg['levy']}", f"cache={cs}", f"ndim={len(cfg['shape'])}"]
     if cfg["dt"] is not None:
         labels.append("dt_hint")
